@@ -23,4 +23,5 @@ def main():
         emit(([["ok"], out]))
 
 
-main()
+if __name__ == "__main__":
+    main()
